@@ -1943,29 +1943,58 @@ class Interp:
         return sts
 
     def _comprehension(self, expr, elts, sts, fr, raised):
+        """a comprehension is the loop it abbreviates: the same iteration, store and
+        test events as a ``for`` statement, with the generator clause as loop node"""
         gens = expr.generators
+        for gen in gens:
+            if not hasattr(gen, 'lineno'):
+                for attr in ('lineno', 'col_offset', 'end_lineno', 'end_col_offset'):
+                    setattr(gen, attr, getattr(gen.iter, attr, None))
         sts = self.ev(gens[0].iter, sts, fr, raised)
         out = []
+        simple = len(gens) == 1 and not gens[0].is_async
         for s in sts:
             frontier = [(s, 0)]
             while frontier:
                 cur, count = frontier.pop()
-                out.append(cur.fork())
+                done = cur.fork()
+                if simple:
+                    self._emit(done, 'iter-end', gens[0], fr, comprehension=expr)
+                out.append(done)
                 if count >= self.loop_bound:
                     continue
+                if simple:
+                    self._emit(cur, 'iter-next', gens[0], fr, iter=gens[0].iter,
+                               comprehension=expr)
+                    self._store(gens[0].target, None, cur, fr, expr)
                 inner = [cur]
                 for gen in gens[1:]:
                     inner = self.ev(gen.iter, inner, fr, raised)
                 passed = []
                 for cand in inner:
                     # conditions may filter the element: both outcomes
-                    states = [cand]
+                    states = [(True, cand)]
                     for gen in gens:
                         for cond in gen.ifs:
-                            states = self.ev(cond, states, fr, raised)
-                    passed.extend(states)
+                            following = []
+                            for value, state in states:
+                                if not value:
+                                    following.append((False, state))
+                                    continue
+                                following.extend(self.eval_test(cond, state, fr, raised))
+                            states = following
+                    for value, state in states:
+                        if value:
+                            passed.append(state)
+                        else:
+                            # filtered out: on to the next element
+                            frontier.append((state, count + 1))
+                before = len(passed)
                 for elt in elts:
                     passed = self.ev(elt, passed, fr, raised)
+                if simple:
+                    for p in passed:
+                        self._emit(p, 'element', elts[0], fr, comprehension=expr)
                 frontier.extend((p, count + 1) for p in passed)
         return out
 
